@@ -45,6 +45,9 @@ pub fn master(ks: &BigUint) -> Arc<Master> {
 #[derive(Serialize, Deserialize, Hash, Debug, Clone, PartialEq, Eq)]
 pub struct Base {
     pub ks: Hex,
+    /// 0: ks as given; 1: ks := H1(ID||01) (so that [h1]P2 + Ppub-s is a doubling); 2: ks := 2*H1 mod N; 3: ks := H1 - 1
+    #[serde(default)]
+    pub ks_rel: u8,
     pub id_len: usize,
     pub id_seed: u64,
     pub msg_len: usize,
@@ -54,7 +57,15 @@ pub struct Base {
 
 impl Base {
     fn ks(&self) -> BigUint {
-        from_be(&self.ks) % (&r9::params().n - 1u32) + 1u32
+        let n = &r9::params().n;
+        let h1 = r9::h1(&self.id(), 0x01);
+        let k = match self.ks_rel {
+            1 => h1,
+            2 => (h1 * 2u32) % n,
+            3 => (h1 + n - 1u32) % n,
+            _ => from_be(&self.ks) % (n - 1u32) + 1u32,
+        };
+        if k.is_zero() { BigUint::one() } else { k }
     }
     fn r(&self) -> BigUint {
         from_be(&self.r) % (&r9::params().n - 2u32) + 1u32 // the library draws r from [1, N-2]
@@ -281,7 +292,7 @@ fn base_strategy() -> impl Strategy<Value = Base> {
         any::<u64>(),
         gen::scalar256(&n),
     )
-        .prop_map(|(ks, id_len, id_seed, msg_len, msg_seed, r)| Base { ks, id_len, id_seed, msg_len, msg_seed, r })
+        .prop_map(|(ks, id_len, id_seed, msg_len, msg_seed, r)| Base { ks, ks_rel: 0, id_len, id_seed, msg_len, msg_seed, r })
 }
 
 pub fn tamper_strategy() -> impl Strategy<Value = Tamper> {
@@ -309,7 +320,7 @@ fn fixed_bases(seed: u64, count: usize) -> Vec<Base> {
     (0..count)
         .map(|i| {
             let s = seed.wrapping_mul(7477) + i as u64;
-            Base { ks: gen::hex32(&BigUint::from(0xabcdef01u64 + (i as u64 % 3))), id_len: [5usize, 3, 0, 20][i % 4], id_seed: s ^ 1, msg_len: [20usize, 0, 1, 100][i % 4], msg_seed: s ^ 2, r: Hex(expand_bytes(s ^ 3, 32)) }
+            Base { ks: gen::hex32(&BigUint::from(0xabcdef01u64 + (i as u64 % 3))), ks_rel: 0, id_len: [5usize, 3, 0, 20][i % 4], id_seed: s ^ 1, msg_len: [20usize, 0, 1, 100][i % 4], msg_seed: s ^ 2, r: Hex(expand_bytes(s ^ 3, 32)) }
         })
         .collect()
 }
@@ -344,8 +355,19 @@ pub fn run(ctx: &Ctx) {
     let seed0 = ctx.seed;
     let maxlen = ctx.tier.pick(200usize, 1024usize);
     ctx.exhaustive("message_lengths", "every message length 0..=200 (thorough 0..=1024) with r injected: exact (h, S) and library verification", move || {
-        (0..=maxlen).map(|l| Base { ks: gen::hex32(&BigUint::from(0xabcdef01u64)), id_len: 1 + l % 9, id_seed: seed0 ^ l as u64, msg_len: l, msg_seed: seed0.wrapping_mul(31) ^ l as u64, r: Hex(expand_bytes(seed0 ^ 0x7777 ^ l as u64, 32)) }).collect()
+        (0..=maxlen).map(|l| Base { ks: gen::hex32(&BigUint::from(0xabcdef01u64)), ks_rel: 0, id_len: 1 + l % 9, id_seed: seed0 ^ l as u64, msg_len: l, msg_seed: seed0.wrapping_mul(31) ^ l as u64, r: Hex(expand_bytes(seed0 ^ 0x7777 ^ l as u64, 32)) }).collect()
     }, check_sign);
+
+    let nrel = ctx.tier.pick(8u64, 60u64);
+    ctx.listed("master_key_related_to_h1", "master keys crafted from the identity: ks = H1(ID||01) (the verifier's [h1]P2 + Ppub-s becomes a doubling), ks = 2*H1, ks = H1 - 1: sign with injected r, exact (h,S), verification; and the reference's signature must be accepted", move || {
+        let mut v = Vec::new();
+        for i in 0..nrel {
+            for rel in 1..=3u8 {
+                v.push(Base { ks: gen::hex32(&BigUint::one()), ks_rel: rel, id_len: 1 + (i as usize % 20), id_seed: seed0 ^ (0x4e1 + i), msg_len: (i as usize * 7) % 50, msg_seed: seed0 ^ i, r: Hex(expand_bytes(seed0 ^ 0x4e2 ^ i, 32)) });
+            }
+        }
+        v
+    }, |b| { check_sign(b)?; check_ref_signed(b) });
 
     ctx.generated("reference_signed_accepted", "proptest: the reference signs, the library must accept", ctx.tier.pick(500, 6_000), base_strategy, check_ref_signed);
 
